@@ -145,7 +145,8 @@ def raw_event(t, payload):
 
 def run_case(stage, msg, mode):
     """mode: 'plain' (stage, then message) | 'burst' (message and a successful password request in flight
-    together) | 'then-login' (refused open, successful login, then the message)."""
+    together) | 'after-refused-open' (refused open of client channel 7, then the message, still
+    unauthenticated) | 'then-login' (refused open, successful login, then the message)."""
     name, prefix, opts = stage
     t, kind, shape, payload, _ = msg
     kw = {"gss": opts.get("gss", False), "gss_dispatch": opts.get("gss_dispatch", "shipped"),
@@ -155,6 +156,9 @@ def run_case(stage, msg, mode):
         hist = list(prefix) + [ev]
     elif mode == "burst":
         hist = list(prefix) + [("burst", (ev, PW_S))]
+    elif mode == "after-refused-open":
+        refused_open = raw_event(90, st(b"session") + u32(7) + u32(1 << 21) + u32(1 << 15))
+        hist = list(prefix) + [refused_open, ev]
     else:
         refused_open = raw_event(90, st(b"session") + u32(7) + u32(1 << 21) + u32(1 << 15))
         hist = list(prefix) + [refused_open, PW_S, ev]
@@ -212,7 +216,9 @@ def judge(acc, stage_name, mode, msg, hist, obs):
                                 "open-failure" if any(x[0] == 92 for x in o["tx"]) else
                                 "request-failure" if any(x[0] == 82 for x in o["tx"]) else
                                 "unimplemented" if any(x[0] == 3 for x in o["tx"]) else "silence"))
-    if len(acc.samples) < 6 and (expect or mode != "plain") and not bad:
+    if not bad and acc.counters.get("sampled:" + mode, 0) < 2 and (expect == "open" or mode != "plain") \
+            and len(acc.samples) < 6:
+        acc.count("sampled:" + mode)
         acc.sample({"stage": stage_name, "mode": mode, "message": [t, kind, shape], "reply": got,
                     "callbacks": o["cb"], "channels": o["channels"], "server_active_after": o["active"]})
     for k in bad:
@@ -234,11 +240,18 @@ def cases(tier):
             out.append((stage, "plain", msg))
     base = [m for m in msgs if not m[2].startswith("prefix")]
     # in flight together with a request that will succeed: the earlier packet is still pre-auth
-    for stage in (STAGES[1], STAGES[3]):
+    for stage in ((STAGES[1], STAGES[3]) if tier == "quick" else STAGES):
         for msg in base:
             out.append((stage, "burst", msg))
+    # traffic for channel numbers right after an open was refused (0 = the id the server would have
+    # allocated, 7 = the client's id of the refused open), still unauthenticated
+    seven = [(t, k, "chan7", p[:0] + u32(7) + p[4:], e) for (t, k, sh, p, e) in base
+             if sh == "chan0" and t >= 91]
+    for stage in ((STAGES[1],) if tier == "quick" else STAGES[1:6]):
+        for msg in [m for m in base if m[0] >= 91 and m[2] == "chan0"] + seven:
+            out.append((stage, "after-refused-open", msg))
     # refused open (client channel 7), successful login, then traffic for never-allocated numbers
-    for msg in base:
+    for msg in base + seven:
         if msg[0] >= 91 and msg[0] != 92:
             out.append((STAGES[1], "then-login", msg))
     for msg in base:
@@ -259,8 +272,9 @@ def main(tier):
          "ending the connection counts as refusing the request"])
     cs = cases(tier)
     ck.merge(core.pmap(enum.chunks(cs, max(64, len(cs) // 24)), work, init=A.spread_pin))
-    ck.extra["bound"] = {"stages": [s[0] for s in STAGES] + ["burst-with-successful-login x2",
-                                                            "refused-open-then-login", CONTROL[0]],
+    ck.extra["bound"] = {"stages": [s[0] for s in STAGES] + [CONTROL[0]],
+                         "modes": ["plain", "burst (message + successful login in flight together)",
+                                   "after-refused-open", "then-login (refused open, login, message)"],
                          "messages": len(messages(tier)), "cases": len(cs)}
     c = ck.acc.counters
     if not (c.get("control_application_consulted") and c.get("control_channel_opened")
